@@ -338,6 +338,8 @@ type diskTrack struct {
 	builder   *samplebuilder.SampleBuilder
 	maxLate   uint16
 	lastSeqno maybeUint32
+	// the newest seqno passed to the samplebuilder
+	newest maybeUint32
 
 	origin maybeUint32
 
@@ -568,7 +570,31 @@ func (t *diskTrack) writeRTP(p *rtp.Packet) error {
 		}
 	}
 
+	if valid(t.newest) && t.builder.Len() > 0 {
+		// The samplebuilder makes room for a packet that is ahead
+		// of its newest one by dropping old frames; if it drops
+		// all it has, it is left in a state where it crashes.
+		// Make room ourselves.
+		room := 2 * int(t.maxLate)
+		delta := int(p.SequenceNumber - uint16(value(t.newest)))
+		if delta > 0 && delta <= room && t.builder.Len()+delta >= room {
+			err := t.writeBuffered(true)
+			if err != nil {
+				return err
+			}
+			if t.builder.Len() > 0 &&
+				t.builder.Len()+delta >= room {
+				// still no room, drop the packet
+				return nil
+			}
+		}
+	}
+
 	t.builder.Push(p)
+	if !valid(t.newest) ||
+		((p.SequenceNumber-uint16(value(t.newest)))&0x8000) == 0 {
+		t.newest = some(uint32(p.SequenceNumber))
+	}
 
 	return t.writeBuffered(false)
 }
